@@ -2,6 +2,7 @@ import Ivg.Lemmas.RatInst
 import Ivg.Model.Generator
 import Ivg.Model.MdIcons
 import Ivg.Model.Renderer
+import Ivg.Lemmas.GradQ
 import Batteries.Tactic.OpenPrivate
 import Mathlib.Tactic.Ring
 import Mathlib.Tactic.FieldSimp
@@ -958,5 +959,191 @@ theorem circle_endpoints (cx r : ℚ) :
     (cx - r) + (Arith.ofInt 2 : ℚ) * r = cx + r ∧ (cx + r) + (Arith.ofInt (-2) : ℚ) * r = cx - r := by
   simp only [RatInst.ofInt_eq]; push_cast; constructor <;> ring
 end MdG
+
+/-! ## C19 ∘ C15 at `ℚ`: the gradient a helper writes is the gradient the renderer paints -/
+
+namespace Composed
+open Ivg.Ren Ivg.Grad Ivg.GradQ Rendered
+open Ivg.Spec.Grad (Spread spreadOffset Col colorAt increasing)
+variable [SqrtQ]
+
+/-- the stops `SetGradient` is given, as the renderer will see them -/
+def toStop (s : ℚ × RGBA) : Stop ℚ := ⟨s.1, rgba64Of s.2⟩
+
+/-- validity of the stops as `initGradient` checks it: premultiplied colours, offsets in `[0,1]`, strictly
+    increasing -/
+def stopsValid : List (ℚ × RGBA) → Prop
+  | [] => True
+  | [s] => s.2.validPremul = true ∧ 0 ≤ s.1 ∧ s.1 ≤ 1
+  | s :: t :: rest => (s.2.validPremul = true ∧ 0 ≤ s.1 ∧ s.1 ≤ 1) ∧ s.1 < t.1 ∧ stopsValid (t :: rest)
+
+theorem stopsValid_head {s : ℚ × RGBA} {l : List (ℚ × RGBA)} (h : stopsValid (s :: l)) :
+    s.2.validPremul = true ∧ 0 ≤ s.1 ∧ s.1 ≤ 1 := by
+  cases l with
+  | nil => exact h
+  | cons t rest => exact h.1
+
+theorem stopsValid_tail {s : ℚ × RGBA} {l : List (ℚ × RGBA)} (h : stopsValid (s :: l)) : stopsValid l := by
+  cases l with
+  | nil => trivial
+  | cons t rest => exact h.2.2
+
+/-- converse of `collectStops_props`: registers holding valid stops are accepted, and the stops collected are
+    exactly those -/
+theorem collectStops_complete (cReg : Regs RGBA) (nReg : Regs ℚ) (cBase nBase : UInt8) (stops : List (ℚ × RGBA)) :
+    ∀ (i : UInt8) (prevN : ℚ) (first : Bool),
+      stopsValid stops →
+      (first = true ∨ ∀ s ∈ stops.head?, prevN < s.1) →
+      (∀ k (hk : k < stops.length),
+        cReg.get6 (cBase + (i + UInt8.ofNat k)) = stops[k].2 ∧ nReg.get6 (nBase + (i + UInt8.ofNat k)) = stops[k].1) →
+      collectStops (β := ℚ) cReg nReg cBase nBase stops.length i prevN first = some (stops.map toStop) := by
+  induction stops with
+  | nil => intro i prevN first _ _ _; rfl
+  | cons s rest ih =>
+    intro i prevN first hv hp hreg
+    obtain ⟨hc, h0, h1⟩ := stopsValid_head hv
+    have e0 : i + UInt8.ofNat 0 = i := by
+      apply UInt8.toNat_inj.mp; simp
+    have hr0' := hreg 0 (by simp)
+    rw [e0] at hr0'
+    simp only [List.getElem_cons_zero] at hr0'
+    simp only [List.length_cons]
+    rw [collectStops_succ, hr0'.1, hr0'.2, hc]
+    simp only [Bool.not_true, Bool.false_eq_true, if_false]
+    have hp' : first = true ∨ prevN < s.1 := hp.imp id (fun h => h s (by simp))
+    rw [if_neg (by intro hh; rcases hh with hh | hh; exact hh ⟨h0, h1⟩; exact hh hp')]
+    rw [ih (i + 1) s.1 false (stopsValid_tail hv) ?_ ?_]
+    · rfl
+    · right
+      intro t ht
+      cases rest with
+      | nil => simp at ht
+      | cons t' rest' =>
+        simp only [List.head?_cons, Option.mem_def, Option.some.injEq] at ht
+        subst ht
+        exact hv.2.1
+    · intro k hk
+      have := hreg (k + 1) (by simpa using hk)
+      simp only [List.getElem_cons_succ] at this
+      have e : i + 1 + UInt8.ofNat k = i + UInt8.ofNat (k + 1) := by
+        apply UInt8.toNat_inj.mp
+        simp [UInt8.toNat_add, UInt8.toNat_ofNat']
+        omega
+      rw [e]; exact this
+
+/-- converse of `initGradient_spec`: if the stop loop accepts at least two stops, `initGradient` succeeds
+    with `Init` of the decoded shape and spread, `pixMatrix` and those stops -/
+theorem initGradient_of_collect (z : Renderer ℚ ℚ) (rgba : RGBA) (s0 s1 : Stop ℚ) (rest : List (Stop ℚ))
+    (h : collectStops (β := ℚ) z.cReg z.nReg (decodeGradient rgba).cBase (decodeGradient rgba).nBase
+      (decodeGradient rgba).nStops.toNat 0 (Ren.zeroA : ℚ) true = some (s0 :: s1 :: rest)) :
+    z.initGradient rgba = some (Gradient.init (decodeGradient rgba).shape (decodeGradient rgba).spread
+      (pixMatrix z (decodeGradient rgba).nBase) (s0 :: s1 :: rest)).1 := by
+  unfold Renderer.initGradient
+  dsimp only
+  rw [h]
+  rfl
+
+theorem stopsValid_increasing : ∀ (stops : List (ℚ × RGBA)), stopsValid stops →
+    increasing (specStops (stops.map toStop))
+  | [], _ => trivial
+  | [_], _ => trivial
+  | _ :: t :: rest, h => ⟨h.2.1, stopsValid_increasing (t :: rest) h.2.2⟩
+
+/-- C19 ∘ C15 at exact arithmetic: "the generator's gradient helpers write a gradient that, when rendered,
+    realises the requested geometry … the stops, spread and shape given are the ones rendered".
+    Run the calls of a successful `SetGradient` (at least two valid stops) on a renderer; then the gradient
+    value now in CREG[CSEL] is ACCEPTED by `initGradient`, and the resulting paint has the given shape and
+    spread (their low bits), maps a pixel `(px, py)` to gradient space by the GIVEN matrix `t` applied to the
+    viewBox point `(unabsX px, unabsY py)`, and its colour at every pixel is the specification's `colorAt`
+    of exactly the given stops (8-bit colours widened to 16 bits by `rgba64Of`). -/
+theorem helper_rendered (arc : ArcFn ℚ ℚ) (posInf : ℚ) (z : Renderer ℚ ℚ)
+    (hcs : z.cSel.toNat < 64) (hns : z.nSel.toNat < 64)
+    (shape spread : UInt8) (stops : List (ℚ × RGBA)) (t : Gen.Aff3 ℚ) (calls : List (Call ℚ))
+    (h : setGradient z.cSel z.nSel shape spread stops t = .ok calls)
+    (hv : stopsValid stops) (h2 : 2 ≤ stops.length) :
+    let z' := (z.run arc posInf calls).1
+    ∃ g : Gradient ℚ, z'.initGradient (z'.cReg.get6 z'.cSel) = some g ∧
+      g.shape = shape &&& 0x01 ∧ g.spread = spread &&& 0x03 ∧
+      (∀ px py : ℚ,
+        g.pix2Grad.a * px + g.pix2Grad.b * py + g.pix2Grad.c = t.a0 * z.unabsX px + t.a1 * z.unabsY py + t.a2 ∧
+        g.pix2Grad.d * px + g.pix2Grad.e * py + g.pix2Grad.f = t.a3 * z.unabsX px + t.a4 * z.unabsY py + t.a5) ∧
+      ∀ x y : Int,
+        toCol (g.at x y) = colorAt (Spread.ofCode (spread &&& 0x03))
+          (stops.map (fun s => (s.1, toCol (rgba64Of s.2)))) (rawOffset g x y) := by
+  intro z'
+  obtain ⟨-, r2, -, r4, r5, r6, r7, -, -⟩ := setGradient_rendered arc posInf z hcs hns shape spread stops t calls h
+  have hn : stops.length ≤ 58 := by
+    by_contra hh
+    rw [(too_many_stops z.cSel z.nSel shape spread stops t).1 (by omega)] at h; cases h
+  have hdec := decode_encode_gradient 10 10 shape spread (UInt8.ofNat stops.length)
+  rw [ofNat_and_3f _ hn] at hdec
+  have hg : z'.cReg.get6 z'.cSel = encodeGradient 10 10 shape spread (UInt8.ofNat stops.length) := by
+    show z'.cReg.get6 z'.cSel = _
+    rw [show z'.cSel = z.cSel from r2]; exact r5
+  rw [hg]
+  generalize hgv : encodeGradient 10 10 shape spread (UInt8.ofNat stops.length) = gv at hdec
+  have hcB : (decodeGradient gv).cBase = 10 := by rw [hdec]; rfl
+  have hnB : (decodeGradient gv).nBase = 10 := by rw [hdec]; rfl
+  have hsh : (decodeGradient gv).shape = shape &&& 0x01 := by rw [hdec]
+  have hsp : (decodeGradient gv).spread = spread &&& 0x03 := by rw [hdec]
+  have hnS : (decodeGradient gv).nStops.toNat = stops.length := by
+    rw [hdec]; show (UInt8.ofNat stops.length).toNat = _
+    rw [UInt8.toNat_ofNat']; omega
+  -- the registers hold the stops
+  have hreg : ∀ k (hk : k < stops.length),
+      z'.cReg.get6 (10 + (0 + UInt8.ofNat k)) = stops[k].2 ∧ z'.nReg.get6 (10 + (0 + UInt8.ofNat k)) = stops[k].1 := by
+    intro k hk
+    apply r6 k hk
+    have : (10 + (0 + UInt8.ofNat k) : UInt8).toNat = 10 + k := by
+      simp [UInt8.toNat_add, UInt8.toNat_ofNat']; omega
+    rw [this]
+  have hcol := collectStops_complete z'.cReg z'.nReg 10 10 stops 0 (Ren.zeroA : ℚ) true hv (Or.inl rfl) hreg
+  -- at least two stops
+  obtain ⟨a, b, rest, rfl⟩ : ∃ a b rest, stops = a :: b :: rest := by
+    match stops, h2 with
+    | a :: b :: rest, _ => exact ⟨a, b, rest, rfl⟩
+  have hcol' : collectStops (β := ℚ) z'.cReg z'.nReg (decodeGradient gv).cBase (decodeGradient gv).nBase
+      (decodeGradient gv).nStops.toNat 0 (Ren.zeroA : ℚ) true = some (toStop a :: toStop b :: rest.map toStop) := by
+    rw [hcB, hnB, hnS]; exact hcol
+  have hinit := initGradient_of_collect z' gv _ _ _ hcol'
+  refine ⟨_, hinit, ?_, ?_, ?_, ?_⟩
+  · rw [(init_eq _ _ _ _ _ _).1, hsh]
+  · rw [(init_eq _ _ _ _ _ _).1, hsp]
+  · intro px py
+    rw [(init_eq _ _ _ _ _ _).1]
+    have hc := pix2grad_compose z' (decodeGradient gv).nBase px py
+    simp only at hc
+    rw [hnB] at hc
+    have e4 : ((10 : UInt8) - 6) = 4 := by decide
+    have e5 : ((10 : UInt8) - 5) = 5 := by decide
+    have e6 : ((10 : UInt8) - 4) = 6 := by decide
+    have e7 : ((10 : UInt8) - 3) = 7 := by decide
+    have e8 : ((10 : UInt8) - 2) = 8 := by decide
+    have e9 : ((10 : UInt8) - 1) = 9 := by decide
+    rw [e4, e5, e6, e7, e8, e9, r7.1, r7.2.1, r7.2.2.1, r7.2.2.2.1, r7.2.2.2.2.1, r7.2.2.2.2.2] at hc
+    have hux : z'.unabsX px = z.unabsX px := by
+      have h1 : z'.scaleX = z.scaleX := congrArg (fun o => o.2.1) r4
+      have h2 : z'.biasX = z.biasX := congrArg (fun o => o.2.2.1) r4
+      simp only [Renderer.unabsX, h1, h2]
+    have huy : z'.unabsY py = z.unabsY py := by
+      have h1 : z'.scaleY = z.scaleY := congrArg (fun o => o.2.2.2.1) r4
+      have h2 : z'.biasY = z.biasY := congrArg (fun o => o.2.2.2.2.1) r4
+      simp only [Renderer.unabsY, h1, h2]
+    rw [hux, huy] at hc
+    rw [hnB]
+    exact hc
+  · intro x y
+    have hinc := stopsValid_increasing _ hv
+    have hok : ∀ s ∈ toStop a :: toStop b :: rest.map toStop, chanOK s.color := by
+      intro s hs
+      have : s ∈ (a :: b :: rest).map toStop := by simpa using hs
+      obtain ⟨u, -, rfl⟩ := List.mem_map.mp this
+      exact rgba64Of_ok _
+    have := at_spec (decodeGradient gv).shape (decodeGradient gv).spread (pixMatrix z' (decodeGradient gv).nBase)
+      (toStop a) (toStop b) (rest.map toStop) hinc hok x y
+    rw [this, hsp]
+    congr 1
+    simp [specStops, toStop, List.map_map]
+end Composed
 
 end Ivg.GenQ
